@@ -33,6 +33,7 @@ type presented struct {
 	Int      *certs.Certificate
 	RawLeaf  []byte // overrides Leaf when set (garbage)
 	Key      *keys.X25519KeyPair
+	Exch     keys.Exchangable // overrides Key as the static-key oracle of the peer when set
 	Parse    bool
 	LeafType bool
 	NameOK   bool // carries the expected name
@@ -46,6 +47,20 @@ func (p *presented) certKey() keys.DHPublicKey {
 		return p.Leaf.PublicKey
 	}
 	return keys.DHPublicKey{}
+}
+
+// zeroSecret is the static-key oracle of a peer that presents the all-zero
+// point: it has no private key; every agreement "yields" 32 zero bytes.
+type zeroSecret struct{}
+
+func (zeroSecret) Share() []byte                { return make([]byte, 32) }
+func (zeroSecret) Agree([]byte) ([]byte, error) { return make([]byte, 32), nil }
+
+func (p *presented) exchanger() keys.Exchangable {
+	if p.Exch != nil {
+		return p.Exch
+	}
+	return p.Key
 }
 
 // classes builds every counterpart class for the expected name.
@@ -134,6 +149,9 @@ func classes(pki, other *fix.PKI, name certs.Name, rng *vh.Rand) []*presented {
 	var zero keys.DHPublicKey
 	if zl, err := certs.SelfSignLeaf(&certs.Identity{PublicKey: zero, Names: []certs.Name{name}}); err == nil {
 		add(&presented{Class: "low-order-public-key", Leaf: zl, Key: keys.GenerateNewX25519KeyPair(), Parse: true, LeafType: true, NameOK: true, TimeOK: true, ChainOK: false, HoldsKey: false})
+		// the same certificate presented by a peer that knows what a Diffie-Hellman
+		// with that point yields (zeros) and plays along accordingly
+		add(&presented{Class: "low-order-public-key:peer-uses-the-zero-secret", Leaf: zl, Key: keys.GenerateNewX25519KeyPair(), Exch: zeroSecret{}, Parse: true, LeafType: true, NameOK: true, TimeOK: true, ChainOK: false, HoldsKey: false})
 	}
 
 	add(&presented{Class: "garbage-bytes", RawLeaf: rng.Bytes(150 + rng.Intn(100)), Key: keys.GenerateNewX25519KeyPair(), HoldsKey: true})
@@ -236,7 +254,7 @@ func clientVerifiesServer(r *vh.Runner, c *vh.Case, pki *fix.PKI, hidden bool, p
 		panic(err)
 	}
 	leaf, inter := rawOf(p)
-	tc := &transport.Certificate{RawLeaf: leaf, RawIntermediate: inter, Exchanger: p.Key, KEMKeyPair: kem, HostNames: []string{string(name.Label)}}
+	tc := &transport.Certificate{RawLeaf: leaf, RawIntermediate: inter, Exchanger: p.exchanger(), KEMKeyPair: kem, HostNames: []string{string(name.Label)}}
 	srv, err := transport.NewServer(sep, transport.ServerConfig{
 		HandshakeTimeout: 5 * time.Second,
 		GetCertificate:   func(transport.ClientHandshakeInfo) (*transport.Certificate, error) { return tc, nil },
@@ -344,7 +362,7 @@ func serverVerifiesClient(r *vh.Runner, c *vh.Case, pki *fix.PKI, hidden bool, p
 	if hidden {
 		sk = &sid.KEM.Public
 	}
-	cfg := transport.ClientConfig{Exchanger: p.Key, Leaf: p.Leaf, Intermediate: p.Int, HSTimeout: 3 * time.Second, ServerKEMKey: sk,
+	cfg := transport.ClientConfig{Exchanger: p.exchanger(), Leaf: p.Leaf, Intermediate: p.Int, HSTimeout: 3 * time.Second, ServerKEMKey: sk,
 		Verify: transport.VerifyConfig{InsecureSkipVerify: true}}
 	cl := transport.NewClient(cep, saddr, cfg)
 	res := runHandshake(cl)
